@@ -563,25 +563,27 @@ proof fn lemma_sb_empty(f: Seq<char>)
     ensures sorted_bnds(f, Seq::<usize>::empty()),
 { reveal(sorted_bnds); }
 
-// the labelled per-token obligations, by name: within the oracle's scope the text is what [MS-XLSB] says
+// the labelled per-token obligations, by name: within the oracle's scope the text is what [MS-XLSB] says (`got`: what the arm appended /
+// the text after the arm; plain equality -- the extensional step `formula@ =~= f_in + got` is made once per arm)
 pub open spec fn xlsb_attrsum_text(scope: bool, got: Seq<char>, want: Seq<char>) -> bool { scope ==> got =~= want }
+pub open spec fn xlsb_binary_operator_placed(scope: bool, got: Seq<char>, want: Seq<char>) -> bool { scope ==> got =~= want }
 pub open spec fn xlsb_binary_operator_text(scope: bool, got: Seq<char>, want: Seq<char>) -> bool { scope ==> got =~= want }
 pub open spec fn xlsb_paren_text(scope: bool, got: Seq<char>, want: Seq<char>) -> bool { scope ==> got =~= want }
-pub open spec fn xlsb_ptgarea3d_text(scope: bool, got: Seq<char>, want: Seq<char>) -> bool { scope ==> got =~= want }
-pub open spec fn xlsb_ptgarea_text(scope: bool, got: Seq<char>, want: Seq<char>) -> bool { scope ==> got =~= want }
-pub open spec fn xlsb_ptgareaerr3d_text(scope: bool, got: Seq<char>, want: Seq<char>) -> bool { scope ==> got =~= want }
-pub open spec fn xlsb_ptgareaerr_text(scope: bool, got: Seq<char>, want: Seq<char>) -> bool { scope ==> got =~= want }
-pub open spec fn xlsb_ptgbool_text(scope: bool, got: Seq<char>, want: Seq<char>) -> bool { scope ==> got =~= want }
-pub open spec fn xlsb_ptgerr_text(scope: bool, got: Seq<char>, want: Seq<char>) -> bool { scope ==> got =~= want }
-pub open spec fn xlsb_ptgint_text(scope: bool, got: Seq<char>, want: Seq<char>) -> bool { scope ==> got =~= want }
-pub open spec fn xlsb_ptgmissarg_text(scope: bool, got: Seq<char>, want: Seq<char>) -> bool { scope ==> got =~= want }
-pub open spec fn xlsb_ptgname_text(scope: bool, got: Seq<char>, want: Seq<char>) -> bool { scope ==> got =~= want }
-pub open spec fn xlsb_ptgnum_text(scope: bool, got: Seq<char>, want: Seq<char>) -> bool { scope ==> got =~= want }
-pub open spec fn xlsb_ptgref3d_text(scope: bool, got: Seq<char>, want: Seq<char>) -> bool { scope ==> got =~= want }
-pub open spec fn xlsb_ptgref_text(scope: bool, got: Seq<char>, want: Seq<char>) -> bool { scope ==> got =~= want }
-pub open spec fn xlsb_ptgreferr3d_text(scope: bool, got: Seq<char>, want: Seq<char>) -> bool { scope ==> got =~= want }
-pub open spec fn xlsb_ptgreferr_text(scope: bool, got: Seq<char>, want: Seq<char>) -> bool { scope ==> got =~= want }
-pub open spec fn xlsb_ptgstr_text(scope: bool, got: Seq<char>, want: Seq<char>) -> bool { scope ==> got =~= want }
+pub open spec fn xlsb_ptgarea3d_text(scope: bool, got: Seq<char>, want: Seq<char>) -> bool { scope ==> got == want }
+pub open spec fn xlsb_ptgarea_text(scope: bool, got: Seq<char>, want: Seq<char>) -> bool { scope ==> got == want }
+pub open spec fn xlsb_ptgareaerr3d_text(scope: bool, got: Seq<char>, want: Seq<char>) -> bool { scope ==> got == want }
+pub open spec fn xlsb_ptgareaerr_text(scope: bool, got: Seq<char>, want: Seq<char>) -> bool { scope ==> got == want }
+pub open spec fn xlsb_ptgbool_text(scope: bool, got: Seq<char>, want: Seq<char>) -> bool { scope ==> got == want }
+pub open spec fn xlsb_ptgerr_text(scope: bool, got: Seq<char>, want: Seq<char>) -> bool { scope ==> got == want }
+pub open spec fn xlsb_ptgint_text(scope: bool, got: Seq<char>, want: Seq<char>) -> bool { scope ==> got == want }
+pub open spec fn xlsb_ptgmissarg_text(scope: bool, got: Seq<char>, want: Seq<char>) -> bool { scope ==> got == want }
+pub open spec fn xlsb_ptgname_text(scope: bool, got: Seq<char>, want: Seq<char>) -> bool { scope ==> got == want }
+pub open spec fn xlsb_ptgnum_text(scope: bool, got: Seq<char>, want: Seq<char>) -> bool { scope ==> got == want }
+pub open spec fn xlsb_ptgref3d_text(scope: bool, got: Seq<char>, want: Seq<char>) -> bool { scope ==> got == want }
+pub open spec fn xlsb_ptgref_text(scope: bool, got: Seq<char>, want: Seq<char>) -> bool { scope ==> got == want }
+pub open spec fn xlsb_ptgreferr3d_text(scope: bool, got: Seq<char>, want: Seq<char>) -> bool { scope ==> got == want }
+pub open spec fn xlsb_ptgreferr_text(scope: bool, got: Seq<char>, want: Seq<char>) -> bool { scope ==> got == want }
+pub open spec fn xlsb_ptgstr_text(scope: bool, got: Seq<char>, want: Seq<char>) -> bool { scope ==> got == want }
 pub open spec fn xlsb_unary_minus_text(scope: bool, got: Seq<char>, want: Seq<char>) -> bool { scope ==> got =~= want }
 pub open spec fn xlsb_unary_plus_text(scope: bool, got: Seq<char>, want: Seq<char>) -> bool { scope ==> got =~= want }
 
@@ -726,6 +728,14 @@ proof fn lemma_bnd_shift(f: Seq<char>, start: int, b: int)
     lemma_cidx(g, kb - k0);
 }
 
+/// the two statements `let col = [a, b]; let col = read_u16(&col);` of the PtgRef arm (see the declared rewrite in parse_formula), verified here
+fn verif_pair_u16(a: u8, b: u8) -> (r: u16)
+    ensures r as int == a as int + 256 * (b as int),
+{
+    let col = [a, b];
+    let col = read_u16(&col);
+    col
+}
 //@@ fn src/xlsb/mod.rs check_len props=C06 ret=r r4
 //@@ sig
     ensures
@@ -737,6 +747,8 @@ pub mod m {
 use super::*;
 verus! {
 //@@ fn src/xlsb/mod.rs parse_formula props=C14 entry ret=res r13 mutparams
+//@@ replace /let col = \[rgce\[4\], rgce\[5\] & 0x3F\];\s*let col = read_u16\(&col\);/ Verus: the array literal `[a, b]` handed to read_u16 as a slice starts a quantifier matching loop between vstd's array-view and Seq::new axioms inside this 330-line function (47% of all instantiations); the two statements are moved, verbatim, into the helper verif_pair_u16 below, which Verus verifies on its own (same statements, same callee read_u16)
+let col = verif_pair_u16(rgce[4], rgce[5] & 0x3F);
 //@@ sig
     decreases __p_rgce@.len(),
 //@@ closure 0
@@ -839,46 +851,40 @@ verus! {
 //@@ before /\}\n {12}0x3b \| 0x5b \| 0x7b => \{/
                 proof {
                     assert(stack@ =~= st_in.push(blen(f_in) as usize));
-                    let sh = sheets@[ixti as int]@;
-                    let got = sh + seq!['!'] + code_cell(le16(d_in.subrange(6, 8)) as u16, le32(d_in.subrange(2, 6)));
+                    let got = sheets@[ixti as int]@ + seq!['!'] + code_cell(le16(d_in.subrange(6, 8)) as u16, le32(d_in.subrange(2, 6)));
                     assert(formula@ =~= f_in + got);
                     lemma_S_push(f_in, st_in, got);
-                    assert(rgce@ =~= rg_in.skip(9));
-                    lemma_xlsb_ptgref3d_text(sh, d_in, got);
+                    lemma_xlsb_ptgref3d_text(sheets@[ixti as int]@, d_in, got);
                     //# C14.xlsb_ptgref3d_text
-                    assert(xlsb_ptgref3d_text(le16(d_in) < ctx.sheets.len() && xb_row_ok(le32(d_in.skip(2))), formula@, f_in + (ctx.sheets[le16(d_in)] + seq!['!'] + xb_cell(d_in.skip(2)))));
+                    assert(xlsb_ptgref3d_text(le16(d_in) < ctx.sheets.len() && xb_row_ok(le32(d_in.skip(2))), got, ctx.sheets[le16(d_in)] + seq!['!'] + xb_cell(d_in.skip(2))));
                 }
 //@@ before /\}\n {12}0x3c \| 0x5c \| 0x7c => \{/
                 proof {
                     assert(stack@ =~= st_in.push(blen(f_in) as usize));
-                    let sh = sheets@[ixti as int]@;
-                    let got = sh + seq!['!'] + code_cell(le16(d_in.subrange(10, 12)) as u16, le32(d_in.subrange(2, 6))) + seq![':'] + code_cell(le16(d_in.subrange(12, 14)) as u16, le32(d_in.subrange(6, 10)));
+                    let got = sheets@[ixti as int]@ + seq!['!'] + code_cell(le16(d_in.subrange(10, 12)) as u16, le32(d_in.subrange(2, 6))) + seq![':'] + code_cell(le16(d_in.subrange(12, 14)) as u16, le32(d_in.subrange(6, 10)));
                     assert(formula@ =~= f_in + got);
                     lemma_S_push(f_in, st_in, got);
-                    assert(rgce@ =~= rg_in.skip(15));
-                    lemma_xlsb_ptgarea3d_text(sh, d_in, got);
+                    lemma_xlsb_ptgarea3d_text(sheets@[ixti as int]@, d_in, got);
                     //# C14.xlsb_ptgarea3d_text
-                    assert(xlsb_ptgarea3d_text(le16(d_in) < ctx.sheets.len() && xb_row_ok(le32(d_in.skip(2))) && xb_row_ok(le32(d_in.skip(6))), formula@, f_in + (ctx.sheets[le16(d_in)] + seq!['!'] + xb_area(d_in.skip(2)))));
+                    assert(xlsb_ptgarea3d_text(le16(d_in) < ctx.sheets.len() && xb_row_ok(le32(d_in.skip(2))) && xb_row_ok(le32(d_in.skip(6))), got, ctx.sheets[le16(d_in)] + seq!['!'] + xb_area(d_in.skip(2))));
                 }
 //@@ before /\}\n {12}0x3d \| 0x5d \| 0x7d => \{/
                 proof {
                     assert(stack@ =~= st_in.push(blen(f_in) as usize));
-                    let t = formula@.skip(f_in.len() as int);
-                    assert(formula@ =~= f_in + t);
-                    lemma_S_push(f_in, st_in, t);
-                    assert(rgce@ =~= rg_in.skip(9));
+                    let got = sheets@[ixti as int]@ + seq!['!'] + "#REF!"@;
+                    assert(formula@ =~= f_in + got);
+                    lemma_S_push(f_in, st_in, got);
                     //# C14.xlsb_ptgreferr3d_text
-                    assert(xlsb_ptgreferr3d_text(le16(d_in) < ctx.sheets.len(), formula@, f_in + (ctx.sheets[le16(d_in)] + seq!['!'] + "#REF!"@)));
+                    assert(xlsb_ptgreferr3d_text(le16(d_in) < ctx.sheets.len(), got, ctx.sheets[le16(d_in)] + seq!['!'] + "#REF!"@));
                 }
 //@@ before /\}\n {12}0x01 => \{/
                 proof {
                     assert(stack@ =~= st_in.push(blen(f_in) as usize));
-                    let t = formula@.skip(f_in.len() as int);
-                    assert(formula@ =~= f_in + t);
-                    lemma_S_push(f_in, st_in, t);
-                    assert(rgce@ =~= rg_in.skip(15));
+                    let got = sheets@[ixti as int]@ + seq!['!'] + "#REF!"@;
+                    assert(formula@ =~= f_in + got);
+                    lemma_S_push(f_in, st_in, got);
                     //# C14.xlsb_ptgareaerr3d_text
-                    assert(xlsb_ptgareaerr3d_text(le16(d_in) < ctx.sheets.len(), formula@, f_in + (ctx.sheets[le16(d_in)] + seq!['!'] + "#REF!"@)));
+                    assert(xlsb_ptgareaerr3d_text(le16(d_in) < ctx.sheets.len(), got, ctx.sheets[le16(d_in)] + seq!['!'] + "#REF!"@));
                 }
 //@@ before /\}\n {12}0x03\.\.=0x11 => \{/
                 proof {
@@ -886,22 +892,20 @@ verus! {
                     let t = formula@.skip(f_in.len() as int);
                     assert(formula@ =~= f_in + t);
                     lemma_S_push(f_in, st_in, t);
-                    assert(rgce@ =~= rg_in.skip(5));
                 }
 //@@ before /\}\n {12}0x12 => \{/
                 proof {
                     assert(stack@ =~= st_in.drop_last());
                     assert(formula@.take(kl) =~= f_in.take(kl));
                     lemma_S_top(f_in, st_in, formula@);
-                    assert(rgce@ =~= rg_in.skip(1));
-                    assert(formula@ =~= f_in.take(kl) + op@ + f_in.skip(kl));
+                    //# C14.xlsb_binary_operator_placed
+                    assert(xlsb_binary_operator_placed(true, formula@, f_in.take(kl) + op@ + f_in.skip(kl)));
                 }
 //@@ before /\}\n {12}0x13 => \{/
                 proof {
                     assert(stack@ =~= st_in);
                     assert(formula@.take(kl) =~= f_in.take(kl));
                     lemma_S_top(f_in, st_in, formula@);
-                    assert(rgce@ =~= rg_in.skip(1));
                     //# C14.xlsb_unary_plus_text
                     assert(xlsb_unary_plus_text(true, formula@, f_in.take(kl) + seq!['+'] + f_in.skip(kl)));
                 }
@@ -910,7 +914,6 @@ verus! {
                     assert(stack@ =~= st_in);
                     assert(formula@.take(kl) =~= f_in.take(kl));
                     lemma_S_top(f_in, st_in, formula@);
-                    assert(rgce@ =~= rg_in.skip(1));
                     //# C14.xlsb_unary_minus_text
                     assert(xlsb_unary_minus_text(true, formula@, f_in.take(kl) + seq!['-'] + f_in.skip(kl)));
                 }
@@ -919,37 +922,32 @@ verus! {
                     assert(stack@ =~= st_in);
                     assert(formula@ =~= f_in + seq!['%']);
                     lemma_S_grow(f_in, st_in, seq!['%']);
-                    assert(rgce@ =~= rg_in.skip(1));
                 }
 //@@ before /\}\n {12}0x16 => \{/
                 proof {
                     assert(stack@ =~= st_in);
                     assert(formula@.take(kl) =~= f_in.take(kl));
                     lemma_S_top(f_in, st_in, formula@);
-                    assert(rgce@ =~= rg_in.skip(1));
                     //# C14.xlsb_paren_text
                     assert(xlsb_paren_text(true, formula@, f_in.take(kl) + seq!['('] + f_in.skip(kl) + seq![')']));
                 }
 //@@ before /\}\n {12}0x17 => \{/
                 proof {
                     assert(stack@ =~= st_in.push(blen(f_in) as usize));
-                    let t = formula@.skip(f_in.len() as int);
-                    assert(formula@ =~= f_in + t);
-                    lemma_S_push(f_in, st_in, t);
-                    assert(rgce@ =~= rg_in.skip(1));
+                    let got = Seq::<char>::empty();
+                    assert(formula@ =~= f_in + got);
+                    lemma_S_push(f_in, st_in, got);
                     //# C14.xlsb_ptgmissarg_text
-                    assert(xlsb_ptgmissarg_text(true, formula@, f_in + (Seq::<char>::empty())));
+                    assert(xlsb_ptgmissarg_text(true, got, Seq::<char>::empty()));
                 }
 //@@ before /\}\n {12}0x18 => \{/
                 proof {
                     assert(stack@ =~= st_in.push(blen(f_in) as usize));
-                    let t = formula@.skip(f_in.len() as int);
-                    assert(formula@ =~= f_in + t);
-                    lemma_S_push(f_in, st_in, t);
-                    assert(rgce@ =~= rg_in.skip(3 + 2 * le16(d_in)));
-                    let by = d_in.subrange(2, 2 + 2 * le16(d_in));
+                    let got = quoted(if has_bom(d_in.subrange(2, 2 + 2 * le16(d_in))) { dec_sniffed(d_in.subrange(2, 2 + 2 * le16(d_in))) } else { dec16(d_in.subrange(2, 2 + 2 * le16(d_in))) });
+                    assert(formula@ =~= f_in + got);
+                    lemma_S_push(f_in, st_in, got);
                     //# C14.xlsb_ptgstr_text
-                    assert(xlsb_ptgstr_text(!has_bom(by), formula@, f_in + quoted(dec16(by))));
+                    assert(xlsb_ptgstr_text(!has_bom(d_in.subrange(2, 2 + 2 * le16(d_in))), got, quoted(dec16(d_in.subrange(2, 2 + 2 * le16(d_in))))));
                 }
 //@@ before /\}\n {12}0x19 => \{/
                 proof {
@@ -964,7 +962,6 @@ verus! {
                     if eptg == 0x10 {
                         assert(formula@.take(kl) =~= f_in.take(kl));
                         lemma_S_top(f_in, st_in, formula@);
-                        assert(rgce@ =~= rg_in.skip(4));
                         //# C14.xlsb_attrsum_text
                         assert(xlsb_attrsum_text(true, formula@, f_in.take(kl) + "SUM("@ + f_in.skip(kl) + seq![')']));
                     } else {
@@ -975,42 +972,38 @@ verus! {
 //@@ before /\}\n {12}0x1D => \{/
                 proof {
                     assert(stack@ =~= st_in.push(blen(f_in) as usize));
-                    let t = formula@.skip(f_in.len() as int);
-                    assert(formula@ =~= f_in + t);
-                    lemma_S_push(f_in, st_in, t);
-                    assert(rgce@ =~= rg_in.skip(2));
+                    let got = err_text(d_in[0] as int)->Some_0;
+                    assert(formula@ =~= f_in + got);
+                    lemma_S_push(f_in, st_in, got);
                     //# C14.xlsb_ptgerr_text
-                    assert(xlsb_ptgerr_text(err_text(d_in[0] as int) is Some, formula@, f_in + (err_text(d_in[0] as int)->Some_0)));
+                    assert(xlsb_ptgerr_text(err_text(d_in[0] as int) is Some, got, err_text(d_in[0] as int)->Some_0));
                 }
 //@@ before /\}\n {12}0x1E => \{/
                 proof {
                     assert(stack@ =~= st_in.push(blen(f_in) as usize));
-                    let t = formula@.skip(f_in.len() as int);
-                    assert(formula@ =~= f_in + t);
-                    lemma_S_push(f_in, st_in, t);
-                    assert(rgce@ =~= rg_in.skip(2));
+                    let got = (if d_in[0] == 0 { "FALSE"@ } else { "TRUE"@ });
+                    assert(formula@ =~= f_in + got);
+                    lemma_S_push(f_in, st_in, got);
                     //# C14.xlsb_ptgbool_text
-                    assert(xlsb_ptgbool_text(d_in[0] <= 1, formula@, f_in + ((if d_in[0] == 0 { "FALSE"@ } else { "TRUE"@ }))));
+                    assert(xlsb_ptgbool_text(d_in[0] <= 1, got, (if d_in[0] == 0 { "FALSE"@ } else { "TRUE"@ })));
                 }
 //@@ before /\}\n {12}0x1F => \{/
                 proof {
                     assert(stack@ =~= st_in.push(blen(f_in) as usize));
-                    let t = formula@.skip(f_in.len() as int);
-                    assert(formula@ =~= f_in + t);
-                    lemma_S_push(f_in, st_in, t);
-                    assert(rgce@ =~= rg_in.skip(3));
+                    let got = dec(le16(d_in) as nat);
+                    assert(formula@ =~= f_in + got);
+                    lemma_S_push(f_in, st_in, got);
                     //# C14.xlsb_ptgint_text
-                    assert(xlsb_ptgint_text(true, formula@, f_in + (dec(le16(d_in) as nat))));
+                    assert(xlsb_ptgint_text(true, got, dec(le16(d_in) as nat)));
                 }
 //@@ before /\}\n {12}0x20 \| 0x40 \| 0x60 => \{/
                 proof {
                     assert(stack@ =~= st_in.push(blen(f_in) as usize));
-                    let t = formula@.skip(f_in.len() as int);
-                    assert(formula@ =~= f_in + t);
-                    lemma_S_push(f_in, st_in, t);
-                    assert(rgce@ =~= rg_in.skip(9));
+                    let got = display::<f64>(f64_of_bits(le64(d_in)));
+                    assert(formula@ =~= f_in + got);
+                    lemma_S_push(f_in, st_in, got);
                     //# C14.xlsb_ptgnum_text
-                    assert(xlsb_ptgnum_text(true, formula@, f_in + (display::<f64>(f64_of_bits(le64(d_in))))));
+                    assert(xlsb_ptgnum_text(true, got, display::<f64>(f64_of_bits(le64(d_in)))));
                 }
 //@@ before /\}\n {12}0x21 \| 0x22 \| 0x41 \| 0x42 \| 0x61 \| 0x62 => \{/
                 proof {
@@ -1018,19 +1011,17 @@ verus! {
                     let t = formula@.skip(f_in.len() as int);
                     assert(formula@ =~= f_in + t);
                     lemma_S_push(f_in, st_in, t);
-                    assert(rgce@ =~= rg_in.skip(15));
                 }
 //@@ before /\}\n {12}0x23 \| 0x43 \| 0x63 => \{/
                 proof { }
 //@@ before /\}\n {12}0x24 \| 0x44 \| 0x64 => \{/
                 proof {
                     assert(stack@ =~= st_in.push(blen(f_in) as usize));
-                    let t = formula@.skip(f_in.len() as int);
-                    assert(formula@ =~= f_in + t);
-                    lemma_S_push(f_in, st_in, t);
-                    assert(rgce@ =~= rg_in.skip(5));
+                    let got = (if 1 <= le32(d_in) <= names@.len() { names@[le32(d_in) - 1].0@ } else { Seq::<char>::empty() });
+                    assert(formula@ =~= f_in + got);
+                    lemma_S_push(f_in, st_in, got);
                     //# C14.xlsb_ptgname_text
-                    assert(xlsb_ptgname_text(1 <= le32(d_in) <= ctx.names.len(), formula@, f_in + (ctx.names[le32(d_in) - 1])));
+                    assert(xlsb_ptgname_text(1 <= le32(d_in) <= ctx.names.len(), got, ctx.names[le32(d_in) - 1]));
                 }
 //@@ before /\}\n {12}0x25 \| 0x45 \| 0x65 => \{/
                 proof {
@@ -1038,10 +1029,9 @@ verus! {
                     let got = dollar(d_in[5] & 0x40 != 0x40) + col_name(col as int) + dollar(d_in[5] & 0x80 != 0x80) + dec(row as nat);
                     assert(formula@ =~= f_in + got);
                     lemma_S_push(f_in, st_in, got);
-                    assert(rgce@ =~= rg_in.skip(7));
                     lemma_xlsb_ptgref_text(d_in, row as int, col as int, got);
                     //# C14.xlsb_ptgref_text
-                    assert(xlsb_ptgref_text(xb_row_ok(le32(d_in)), formula@, f_in + xb_cell(d_in)));
+                    assert(xlsb_ptgref_text(xb_row_ok(le32(d_in)), got, xb_cell(d_in)));
                 }
 //@@ before /\}\n {12}0x2A \| 0x4A \| 0x6A => \{/
                 proof {
@@ -1049,30 +1039,27 @@ verus! {
                     let got = code_cell(le16(d_in.subrange(8, 10)) as u16, le32(d_in.subrange(0, 4))) + seq![':'] + code_cell(le16(d_in.subrange(10, 12)) as u16, le32(d_in.subrange(4, 8)));
                     assert(formula@ =~= f_in + got);
                     lemma_S_push(f_in, st_in, got);
-                    assert(rgce@ =~= rg_in.skip(13));
                     lemma_xlsb_ptgarea_text(d_in, got);
                     //# C14.xlsb_ptgarea_text
-                    assert(xlsb_ptgarea_text(xb_row_ok(le32(d_in)) && xb_row_ok(le32(d_in.skip(4))), formula@, f_in + xb_area(d_in)));
+                    assert(xlsb_ptgarea_text(xb_row_ok(le32(d_in)) && xb_row_ok(le32(d_in.skip(4))), got, xb_area(d_in)));
                 }
 //@@ before /\}\n {12}0x2B \| 0x4B \| 0x6B => \{/
                 proof {
                     assert(stack@ =~= st_in.push(blen(f_in) as usize));
-                    let t = formula@.skip(f_in.len() as int);
-                    assert(formula@ =~= f_in + t);
-                    lemma_S_push(f_in, st_in, t);
-                    assert(rgce@ =~= rg_in.skip(7));
+                    let got = "#REF!"@;
+                    assert(formula@ =~= f_in + got);
+                    lemma_S_push(f_in, st_in, got);
                     //# C14.xlsb_ptgreferr_text
-                    assert(xlsb_ptgreferr_text(true, formula@, f_in + ("#REF!"@)));
+                    assert(xlsb_ptgreferr_text(true, got, "#REF!"@));
                 }
 //@@ before /\}\n {12}0x29 \| 0x49 \| 0x69 => \{/
                 proof {
                     assert(stack@ =~= st_in.push(blen(f_in) as usize));
-                    let t = formula@.skip(f_in.len() as int);
-                    assert(formula@ =~= f_in + t);
-                    lemma_S_push(f_in, st_in, t);
-                    assert(rgce@ =~= rg_in.skip(13));
+                    let got = "#REF!"@;
+                    assert(formula@ =~= f_in + got);
+                    lemma_S_push(f_in, st_in, got);
                     //# C14.xlsb_ptgareaerr_text
-                    assert(xlsb_ptgareaerr_text(true, formula@, f_in + ("#REF!"@)));
+                    assert(xlsb_ptgareaerr_text(true, got, "#REF!"@));
                 }
 //@@ before /\}\n {12}0x39 \| 0x59 \| 0x79 => \{/
                 proof {
@@ -1080,7 +1067,6 @@ verus! {
                     let t = formula@.skip(f_in.len() as int);
                     assert(formula@ =~= f_in + t);
                     lemma_S_push(f_in, st_in, t);
-                    assert(rgce@ =~= rg_in.skip(3 + le16(d_in)));
                 }
 //@@ before /\}\n {12}_ => return Err\(XlsbError::Ptg\(ptg\)\)/
                 proof {
@@ -1088,7 +1074,6 @@ verus! {
                     let t = formula@.skip(f_in.len() as int);
                     assert(formula@ =~= f_in + t);
                     lemma_S_push(f_in, st_in, t);
-                    assert(rgce@ =~= rg_in.skip(7));
                 }
 //@@ end
 }
